@@ -241,7 +241,7 @@ class Graph:
                     src = Source(p, 'assert', kind, ('macro:' + macro) if foreign else self.label(p, sp), where, macro)
                     if not foreign:
                         src.relabel = lambda subst, p=p, sp=sp: self.label(p, sp, subst=subst)
-                    src.discharged = guarded_arith(self.facts, p, sp, kind) or enumerate_index(self.facts, p, sp, kind) or \
+                    src.discharged = guarded_arith(self.facts, p, sp, kind) or enumerate_index(self.facts, p, sp, kind) or own_loop_nonempty(self.facts, p, sp, kind) or \
                         bounded_operands(self.facts, p, sp, kind) or bounded_index(self.facts, p, sp, kind) or \
                         (consumed_prefix(self.facts, p, sp, 'sub') if kind == 'Overflow(Sub)' else None) or \
                         (guarded_range_index(self.facts, p, sp) if kind.split('(')[0] == 'BoundsCheck' else None)
@@ -745,6 +745,46 @@ def enumerate_index(facts, body_path, src_sp, kind):
                     if (e.get('callee') or '') == 'core::iter::traits::iterator::Iterator::enumerate':
                         return 'the operand is an enumerate() index'
                     e = e['recv']
+    return None
+
+def own_loop_nonempty(facts, body_path, src_sp, kind):
+    """D3b: `x.len() - 1` in the body of a `for` loop that iterates x itself by reference (`&x`, `x.iter()`, either under
+    `.enumerate()`) cannot underflow: the body runs once per element of x, so x has at least one element whenever it runs, and x
+    cannot change while the loop's shared borrow of it is alive (x is a local that is never assigned, or the vector / array
+    itself).  Re-read on every run: a loop over something else, or the subtraction moved out of the loop, is not discharged."""
+    rec = hir_owner(facts, body_path)
+    if rec is None or kind != 'Overflow(Sub)':
+        return None
+    B = _hirq.Body(facts, rec)
+    cands = [n for n in B.nodes if n['k'] == 'Binary' and n.get('sp') and list(n['sp'][:5]) == list(src_sp[:5])]
+    if len(cands) != 1 or cands[0]['op'] != 'Sub' or _hirq.const_eval(facts, cands[0]['r']) != 1:
+        return None
+    l = _hirq.peel_refs(cands[0]['l'])
+    if not (l['k'] == 'MethodCall' and l['name'] == 'len' and not l['args']
+            and (l.get('callee') or '').startswith(('alloc::vec::Vec::<T, A>::len', 'core::slice::<impl [T]>::len'))):
+        return None
+    x = _hirq.peel_refs(l['recv'])
+    if x['k'] != 'Path' or x.get('res') != 'local':
+        return None
+    b = x['bind']
+    owned = (x.get('ty') or '').startswith(('alloc::vec::Vec<', '['))
+    if B.assigns.get(b) and not owned:
+        return None
+    for anc, role in reversed(B.context(cands[0])):
+        if anc['k'] == 'Closure':
+            return None         # a closure made in the loop may be called after the loop has ended
+        if anc['k'] != 'For' or role != 'body':
+            continue
+        it = anc['iter']
+        if it['k'] == 'MethodCall' and (it.get('callee') or '') == 'core::iter::traits::iterator::Iterator::enumerate' and not it['args']:
+            it = it['recv']
+        src = None
+        if it['k'] == 'AddrOf' and not it.get('mut') and it['e']['k'] == 'Path':
+            src = it['e']
+        elif it['k'] == 'MethodCall' and (it.get('callee') or '') == 'core::slice::<impl [T]>::iter' and not it['args']:
+            src = _hirq.peel_refs(it['recv'])
+        if src is not None and src['k'] == 'Path' and src.get('res') == 'local' and src['bind'] == b:
+            return 'the subtraction stands in the body of a loop over the elements of the very sequence whose length it reads: at least one element'
     return None
 
 def consumed_prefix(facts, body_path, sp, what):
